@@ -552,6 +552,9 @@ func sepOf(kind string, body string) string {
 	case "linecomment":
 		return " -- " + body + "\n"
 	case "linecomment_nolead":
+		if strings.HasPrefix(body, "(") {
+			body = " " + body // "--(" would open a block comment
+		}
 		return "--" + body + "\n"
 	case "blockcomment":
 		return "--(" + body + ")--"
@@ -563,7 +566,7 @@ func sepOf(kind string, body string) string {
 	panic("sep " + kind)
 }
 
-var commentBodies = []string{"", "c", "find all 'x'", "a ) b", "-- nested", "it's \"quoted\"", "end", ")", "-"}
+var commentBodies = []string{"", "c", "find all 'x'", "a ) b", "-- nested", "it's \"quoted\"", "end", ")", "-", "x )-", ")-)", "( a (b) c )", "))", "a-)"}
 
 // GenLayout draws one separator per gap (len(tokens)+1 gaps).
 func GenLayout(t *rapid.T, tokens []string) []string {
